@@ -217,6 +217,21 @@ pub fn one_case(rng: &mut Rng, id: String, big: bool) -> Case {
                     ip::lib_scope(|| set.add(rx).unwrap());
                     txs.push(tx);
                 }
+                if rng.below(3) == 0 {
+                    // an add whose registration the kernel refuses: the receiver handed over is gone either way, so its
+                    // descriptor has to be released and its channel closed — not kept open by nobody
+                    ops.push("set add refused".into());
+                    let (tx, rx) = ipc::channel::<u64>().unwrap();
+                    ip::FAIL_EPOLL_ADD.store(true, Ordering::SeqCst);
+                    let r = ip::lib_scope(|| set.add(rx));
+                    ip::FAIL_EPOLL_ADD.store(false, Ordering::SeqCst);
+                    if r.is_ok() {
+                        case.fail("IpcReceiverSet::add reported success although the registration was refused".into());
+                    } else if tx.send(1).is_ok() {
+                        case.fail("the receiver given to an IpcReceiverSet::add that failed is still open: its descriptor is owned by nobody (leaked), senders never see the channel closed".into());
+                    }
+                    case.tags.push("set_add_refused".into());
+                }
                 let rs = ip::lib_scope(|| set.select().unwrap());
                 if rs.is_empty() {
                     case.fail("select returned nothing".into());
